@@ -130,6 +130,10 @@ def record(prop, h, key):
 def replay(prop, path):
     with open(path) as f:
         art = json.load(f)
+    if art.get("engine") == "unwind":
+        import unwind_engine
+        art["how_to_replay"] = path
+        return unwind_engine.replay(prop, art)
     if art.get("engine") == "wmm":
         import wmm_engine
         art["how_to_replay"] = path
